@@ -233,3 +233,16 @@ def noiseOp (j : Json) : Json :=
   | _, _ => jErr "noise: bad arguments"
 
 end Tangelo.Driver
+
+namespace Tangelo.Driver
+open Tangelo.Codec Lean
+
+/-- {"op":"jw","terms":[[key,cyc]..],"n":n,"utd":bool} → qubit terms -/
+def jwOp (j : Json) : Json :=
+  match symTermsOfJson? (j.getObjValD "terms"), getNat? (j.getObjValD "n") with
+  | some ts, some n =>
+    let out := JW.jw n (getBool j "utd") ts
+    Json.mkObj [("terms", Json.arr (out.map (fun (k, c) => Json.arr #[keyToJson k, cycToJson c])).toArray)]
+  | _, _ => jErr "jw: bad arguments"
+
+end Tangelo.Driver
